@@ -60,8 +60,8 @@ CHECKS = {
             U('^TestC04_LargeScale$', (3, 200), (2, 6000)),
             U('^TestC04_PaginatedScenarios$', (3, 8000), (4, 200000)),
             U('^TestC04_WideWeights$', (2, 8000), (3, 200000)),
-        ],
-        essential_labels=['kind:dense', 'kind:sparse', 'kind:paginated', 'event:array-shift', 'event:page-created', 'event:buffer-compacted', 'op:merge', 'op:encdec', 'op:proto', 'op:reweight', 'op:copy', 'op:clear', 'large-scale', 'shape:round-robin', 'paginated-method-mergewithproto', 'clear-refill-same-size', 'mutate-many:non-add', 'large-scale-merge-phase', 'first-read-after-mutation', 'paginated-scenario', 'wide-weights', 'weight>=2^53', 'weights-underflowed-to-zero', 'partial-underflow-lost-bins'],
+            U('^TestC04_Decay$', (2, 6000), (3, 150000))],
+        essential_labels=['kind:dense', 'kind:sparse', 'kind:paginated', 'event:array-shift', 'event:page-created', 'event:buffer-compacted', 'op:merge', 'op:encdec', 'op:proto', 'op:reweight', 'op:copy', 'op:clear', 'large-scale', 'shape:round-robin', 'paginated-method-mergewithproto', 'clear-refill-same-size', 'mutate-many:non-add', 'large-scale-merge-phase', 'first-read-after-mutation', 'paginated-scenario', 'wide-weights', 'weight>=2^53', 'weights-underflowed-to-zero', 'partial-underflow-lost-bins', 'decay:some-bins-vanished'],
         assumptions=COMMON_ASSUMPTIONS + ["weights are dyadic and bounded so that every float64 partial sum is exact (DESIGN §1.1); index spans are capped per store kind by memory"],
     ),
     'C05': dict(
@@ -71,8 +71,8 @@ CHECKS = {
             U('^TestC05_Sketch$', (4, 3000), (3, 15000)),
             U('^TestC05_LargeScale$', (2, 150), (1, 6000)),
             U('^TestC05_WideWeights$', (3, 8000), (4, 200000)),
-        ],
-        essential_labels=['kind:collow', 'kind:colhigh', 'folded', 'op-after-fold', 'merge-same-kind', 'merge-wide-into-empty', 'add-beyond-edge-after-collapse', 'wide-weights', 'weight>=2^53', 'weights-underflowed-to-zero', 'partial-underflow-lost-bins'],
+            U('^TestC05_Decay$', (3, 8000), (4, 200000))],
+        essential_labels=['kind:collow', 'kind:colhigh', 'folded', 'op-after-fold', 'merge-same-kind', 'merge-wide-into-empty', 'add-beyond-edge-after-collapse', 'wide-weights', 'weight>=2^53', 'weights-underflowed-to-zero', 'partial-underflow-lost-bins', 'decay:some-bins-vanished', 'decay:collapsed-state-ended', 'decay:merge-same'],
         assumptions=COMMON_ASSUMPTIONS + ["fold(M,N) model: folding is history-independent (DESIGN §2 C05); dyadic weights"],
     ),
     'C06': dict(
